@@ -1,5 +1,6 @@
 import FitModel.Message
 import FitModel.Generated.ToolConsts
+import FitModel.Generated.ToolCli
 /-!
 Model of the fitactivity tools (/repo/cmd/fitactivity/{concealer,remover,reducer,combiner,aggregator}),
 on protocol messages (`Fit.Msg.Message`) — the tools look fields up by number with
@@ -190,14 +191,26 @@ def concealEnd (th : Nat) (startIdx : Int) (ms : List Message) : List Message :=
   if th = 0 then ms else
   let r := scanEndRev th uint32Invalid ms.reverse
   let ms1 := r.1.reverse
-  let ri := recAt ms1 r.2
-  let ov := decide (startIdx > r.2)
+  -- `if lastConcealStartIndex > lastConcealEndIndex { lastConcealEndIndex = -1 }` (/repo fix of KF-C20-4): when the
+  -- stretches overlap the record the backward scan stops at was already concealed by the start stage — no record is
+  -- left revealed, exactly as when the scan finds none
+  let endIdx : Int := if startIdx > r.2 then -1 else r.2
+  let ri := recAt ms1 endIdx
+  let ov := decide (startIdx > endIdx)
   (updEndRev sesPH ri ov (updEndRev lapPH ri ov r.1)).reverse
 
 /-- `concealer.Conceal(mesgs, first, last)` -/
 def conceal (first last : Nat) (ms : List Message) : List Message :=
   let a := concealStart first ms
   concealEnd last a.2 a.1
+
+/-! ### the command line (cmd/fitactivity/main.go) -/
+
+/-- `--first N` / `--last N` are parsed with `fs.UintVar` into a `uint` (64 bits on amd64) and handed to the concealer as
+`uint32(N)*100` — centimetres, the unit of record.distance (scale 100) — computed in uint32: the conversion drops the
+high bits and the product wraps. Width and factor are read from the source on every run (`Generated/ToolCli.lean`:
+both call sites must have this shape). -/
+def cliThreshold (n : Nat) : Nat := (n % 2 ^ cliBits * cliFactor) % 2 ^ cliBits
 
 /-! ### the in-place compaction loop shared by remover, reducer and combiner -/
 
